@@ -49,6 +49,8 @@ def floors(tier):
     for c in ("single-state", "single-event", "multi-transition", "has-B/D", "symbolic-magnitude", "time-dependent",
               "ode-terms", "derived-param", "derived-chain", "range-style", "string-declaration", "no-events", "mixed-routes", "grown-model", "expression-magnitude", "rate-with-top-level-sum"):
         f["class:" + c] = 5
+    f["counter:permuted_twins"] = 40
+    f["counter:rejected_mutations"] = 60
     f["reach:DeterministicOde.get_ode_eqn"] = 300
     f["reach:BaseOdeModel.get_StateChangeMatrix"] = 300
     f["reach:compileCode.compileExprAndFormat"] = 900
@@ -248,7 +250,17 @@ def run_case(rng, idx, tier, lane, ctx):
             native = NativeCounter()
             native.install()
         try:
+            if not cython and spec["params"] and rng.random() < 0.3:
+                counters["rejected_mutations"] = counters.get("rejected_mutations", 0) + G.rejected_mutations(m, spec, rng)
             ref = compare_model(m, spec, rng, counters, bad, n_points=3)
+            # the same definition declared in another order lives in the same process: each object must evaluate ITS OWN equations
+            tw = G.permuted_twin_spec(spec, rng) if (not cython and not wit and rng.random() < 0.3) else None
+            if tw is not None:
+                with contextlib.redirect_stdout(io.StringIO()):
+                    m_tw = G.build(tw, backend="lambda")
+                counters["permuted_twins"] = counters.get("permuted_twins", 0) + 1
+                compare_model(m_tw, tw, rng, counters, bad, n_points=1)
+                compare_model(m, spec, rng, counters, bad, n_points=1)
         finally:
             if native:
                 native.remove()
